@@ -283,6 +283,54 @@ func checkC16(c *Ctx) {
 		}
 		visit(q)
 		r.Check(ok, "C16.key-schema", "unsigned:"+fname(q), p.Pos(q.Pos()), "tests (chain, otx.GetStoreIndex(chain), requesting validator)", "the unsigned-tx query does not test the signature under (chain, otx.GetStoreIndex(chain), requesting validator): "+detail)
+		// the listing callback never stops the iteration early and lists exactly the unsigned ones
+		for _, an := range q.AnonFuncs {
+			if an.Signature.Results().Len() != 1 || an.Signature.Results().At(0).Type().String() != "bool" || an.Signature.Params().Len() != 2 {
+				continue
+			}
+			if n := ana.NamedOf(an.Signature.Params().At(1).Type()); n == nil || n.Obj().Name() != "OutgoingTx" {
+				continue
+			}
+			okAll, okGuard := true, false
+			ana.Instrs(an, func(in ssa.Instruction) {
+				if ret, isR := in.(*ssa.Return); isR && len(ret.Results) == 1 {
+					if !isConstVal(ret.Results[0], "false") {
+						okAll = false
+					}
+				}
+				// the append into the result list is guarded by "no signature stored"
+				if st, isS := in.(*ssa.Store); isS {
+					if call, isC := st.Val.(*ssa.Call); isC {
+						if b, isB := call.Call.Value.(*ssa.Builtin); isB && b.Name() == "append" {
+							noSig := func(cd ana.Cond) (bool, bool) {
+								// len(sig) == 0  or  sig == nil
+								check := func(v ssa.Value) bool {
+									if lc, ok := v.(*ssa.Call); ok {
+										if bb, ok := lc.Call.Value.(*ssa.Builtin); ok && bb.Name() == "len" {
+											v = lc.Call.Args[0]
+										}
+									}
+									sc, _ := ana.UnwrapCall(v)
+									return sc != nil && c.calleeHasEff(sc, "store", "Get", "ExternalSignatureKey")
+								}
+								if cd.Op != token.EQL && cd.Op != token.NEQ && cd.Op != token.GTR && cd.Op != token.LEQ {
+									return false, false
+								}
+								if check(cd.X) && (isConstVal(cd.Y, "0") || ana.IsNilConst(cd.Y)) {
+									return cd.Op == token.EQL || cd.Op == token.LEQ, true
+								}
+								return false, false
+							}
+							if ana.Guarded(st, noSig) {
+								okGuard = true
+							}
+						}
+					}
+				}
+			})
+			r.Check(okAll && okGuard, "C16.key-schema", "unsigned-complete:"+fname(q), p.Pos(an.Pos()), "the listing callback never stops early and appends exactly when no signature is stored",
+				sprintf("the unsigned-tx query does not list exactly the unconfirmed txs (never stops early=%v, append guarded by 'no signature'=%v)", okAll, okGuard))
+		}
 	}
 
 	// ---- C16.attribution (= C08.attribution) ----------------------------------------
